@@ -1,11 +1,12 @@
 /-
-  C14Pending — why `OpOk` excludes `commit_skip_indexes` and doctor runs that rebuild the vector
-  index: on the shared Core model AS IT STANDS (mirroring the tree without fixes/C40.diff and
-  fixes/C21.diff) each of them loses the embedding of an active frame.
+  C14Pending — why `OpOk` excludes `commit_skip_indexes`: on the shared Core model as it stands
+  (mirroring 7cd4b84: the batch's embeddings stay in the in-memory index, every index manifest is
+  cleared until `finalize_indexes`) a drop+open between the skip-index commit and `finalize_indexes`
+  finds no vector index, so the embedding of an active frame is gone.
 
-  NOT part of the registered C14 modules on purpose: these two statements are about defects owned by
-  C40 and C21.  When their repairs land and `Core.lean` follows, this file stops compiling — delete
-  it then, and drop the two clauses from `OpOk` (MvProps/C14Steps.lean).
+  NOT part of the registered C14 modules on purpose: the statement is about behaviour owned by C40
+  (the prescribed pattern is skip … finalize before the handle is dropped).  If `Core.lean` changes
+  there, this file may stop compiling — delete it then.
 -/
 import MvProps.C14
 namespace Mv.Core
@@ -13,18 +14,14 @@ namespace Mv.Core
 def embP : Emb := (3, "p0")
 def putP : Op := .put { ts := 5, content := "aa", len := 10, plen := 10, emb := some embP } {}
 
-/-- `commit_skip_indexes` applies the embedded put and drops its embedding; `finalize_indexes` rebuilds
-    the vector index from the in-memory index only (property C40) -/
-theorem C14_skip_commit_drops_embedding :
-    let m := runCfg true Mem.create [putP, .commitSkipIndexes, .finalizeIndexes 40]
-    isActive m.frames 0 = true ∧ vecL m = [] ∧
-    embRun [] (traceCfg true Mem.create [putP, .commitSkipIndexes, .finalizeIndexes 40]) = [some embP] := by decide
+/-- skip-index commit, then `finalize_indexes`: the vector is there -/
+theorem C14_skip_then_finalize_keeps_embedding :
+    vecL (runCfg true Mem.create [putP, .commitSkipIndexes, .finalizeIndexes 40]) = [{ id := 0, dim := 3, tok := "p0" }] := by decide
 
-/-- doctor with `rebuild_vec_index` forgets the index before rebuilding it from itself (repair:
-    fixes/C21.diff) -/
-theorem C14_doctor_rebuild_vec_drops_embedding :
-    let m := runCfg true Mem.create [putP, .commit 40, .doctor false false false true 40 41 42 43]
+/-- skip-index commit, then drop+open without `finalize_indexes`: the vector is gone -/
+theorem C14_skip_then_reopen_drops_embedding :
+    let m := runCfg true Mem.create [putP, .commitSkipIndexes, .reopen 40 41]
     isActive m.frames 0 = true ∧ vecL m = [] ∧
-    vecL (runCfg true Mem.create [putP, .commit 40]) = [{ id := 0, dim := 3, tok := "p0" }] := by decide
+    embRun [] (traceCfg true Mem.create [putP, .commitSkipIndexes, .reopen 40 41]) = [some embP] := by decide
 
 end Mv.Core
